@@ -86,6 +86,9 @@ def run(ctx):
                    'unknown spec of their own kind', 3)
     ctx.rule('M6', 'test_for_specials scans category_list in order, replaces the best match only '
                    'by a strictly longer one, and never exits early', 1)
+    ctx.rule('M8', 'an attribute computed from other attributes of the database and remembered (a derived '
+                   'cache such as a flattened lookup list) is re-computed or reset by every method that '
+                   'changes one of the attributes it was computed from', 1)
     ctx.rule('M7', 'kind coherence: no statement, dict entry or keyword argument in the class '
                    'mixes two different kinds (macro/environment/specials)', 30)
 
@@ -228,6 +231,9 @@ def run(ctx):
         raise AnalysisError('anchor vanished: LatexContextDb.test_for_specials')
     _check_test_for_specials(ctx, m, tfs)
 
+    # ---------------------------------------------------------------- M8
+    _derived_cache_invalidation(ctx, m, meths)
+
     # ---------------------------------------------------------------- M7
     _MODFUNCS[0] = dict((q, f_) for q, f_ in m.functions.items() if '.' not in q)
     for name, fn in sorted(list(meths.items()) + [(q, f_) for q, f_ in m.functions.items() if '.' not in q]):
@@ -255,6 +261,74 @@ def run(ctx):
 
 
 # --------------------------------------------------------------------------
+
+
+def _derived_cache_invalidation(ctx, m, meths):
+    def self_reads(e):
+        return {n.attr for n in ast.walk(e) if is_self_attr(n) and isinstance(n.ctx, ast.Load)}
+
+    def writes(fn):
+        """attributes of self written by fn: rebinding, subscript/slice store, in-place mutator call
+        (also through one subscript: self.d[k].update(...))"""
+        out = {}
+        for n in iter_own(fn):
+            if isinstance(n, (ast.Assign, ast.AugAssign)):
+                for t in (n.targets if isinstance(n, ast.Assign) else [n.target]):
+                    for tt in (t.elts if isinstance(t, (ast.Tuple, ast.List)) else [t]):
+                        r = tt
+                        while isinstance(r, ast.Subscript):
+                            r = r.value
+                        if isinstance(r, ast.Attribute) and isinstance(r.value, ast.Subscript):
+                            r = r.value
+                            while isinstance(r, ast.Subscript):
+                                r = r.value
+                        if is_self_attr(r):
+                            out.setdefault(r.attr, n)
+            elif isinstance(n, ast.Call) and call_name(n) in MUTATORS and call_recv(n) is not None:
+                r = call_recv(n)
+                while isinstance(r, (ast.Subscript, ast.Attribute)) and not is_self_attr(r):
+                    r = r.value
+                if is_self_attr(r):
+                    out.setdefault(r.attr, n)
+        return out
+    caches = {}
+    for name, fn in sorted(meths.items()):
+        if name == '__init__':
+            continue
+        for st in iter_own(fn):
+            if isinstance(st, ast.Assign) and len(st.targets) == 1 and is_self_attr(st.targets[0]):
+                deps = self_reads(st.value) - {st.targets[0].attr}
+                if deps and not isinstance(st.value, (ast.Constant, ast.Name)):
+                    # `self.A = <expression over other attributes>`: candidate derived value
+                    caches.setdefault(st.targets[0].attr, []).append((name, st, deps))
+    n = 0
+    for attr, defs in sorted(caches.items()):
+        # only attributes that are *remembered*: guarded by an `is None` memo test somewhere
+        memo = [d for d in defs if any(pol and unparse(t) == 'self.%s is None' % attr
+                                       for t, pol in atomic_facts(d[1]))]
+        if not memo:
+            continue
+        deps = set()
+        for _, _, d_ in memo:
+            deps |= d_
+        for name, fn in sorted(meths.items()):
+            if name == '__init__' or name in {d[0] for d in memo}:
+                continue
+            w = writes(fn)
+            hit = sorted(set(w) & deps)
+            if not hit:
+                continue
+            n += 1
+            ctx.decide('M8', attr in w, m, w[hit[0]],
+                       '%s changes %s and resets the derived %s' % (name, hit, attr),
+                       '%s changes self.%s, from which the remembered self.%s was computed (in %s), but '
+                       'does not reset it: lookups that go through self.%s keep answering from the old '
+                       'contents while categories() / get_*_spec() already see the change'
+                       % (name, '/'.join(hit), attr, memo[0][0], attr),
+                       construct='%s: derived cache %s' % (name, attr))
+    ctx.holds('M8', m, None, '%d remembered derived attribute(s); %d writer(s) of their sources checked'
+              % (len([a for a, d in caches.items() if any(True for x in d)]), n),
+              construct='derived cache scan', trivial=True)
 
 
 def _chainmap_len(v):
@@ -337,6 +411,9 @@ def _is_maps_of(node, whichvar=None):
     return None
 
 
+_COND_REBUILD = []
+
+
 def _rebuild_kinds(fn, after_stmt):
     """Kinds whose .maps are assigned, after `after_stmt`, from a comprehension over
     self.category_list yielding self.d[c][kind]."""
@@ -367,6 +444,26 @@ def _rebuild_kinds(fn, after_stmt):
             continue
         if unparse(e.slice) != unparse(key):
             continue
+        # the rebuild must be unconditional: no enclosing test and no earlier statement of the
+        # same block chain that can leave the iteration / the function
+        conditional = False
+        child = st
+        for p in parents(st):
+            if p is fn:
+                break
+            if isinstance(p, (ast.If, ast.While, ast.Try, ast.With)) and not isinstance(p, ast.With):
+                conditional = True
+            for fld in ('body', 'orelse', 'finalbody'):
+                blk = getattr(p, fld, None)
+                if isinstance(blk, list) and any(x is child for x in blk):
+                    for prev in blk[:[i for i, x in enumerate(blk) if x is child][0]]:
+                        if any(isinstance(x, (ast.Continue, ast.Break, ast.Return))
+                               for x in ast.walk(prev)):
+                            conditional = True
+            child = p
+        if conditional:
+            _COND_REBUILD.append(st)
+            continue
         # which kinds does this statement cover?
         if isinstance(key, ast.Constant) and key.value in KINDS:
             kinds.add(key.value)
@@ -383,7 +480,14 @@ def _rebuild_kinds(fn, after_stmt):
 
 def _mirror_shape(fn, mut):
     # shape A: rebuild after the change
+    del _COND_REBUILD[:]
     rk = _rebuild_kinds(fn, mut)
+    if _COND_REBUILD and rk != set(KINDS):
+        return 'refuted', ('the chain maps are rebuilt from category_list only under a condition (%s): '
+                           'when it is skipped for a kind, that kind\'s maps no longer mirror '
+                           'category_list item for item, and positions computed on category_list '
+                           '(extended_with, insert_before/after) address the wrong map'
+                           % short(_COND_REBUILD[0], 60))
     if rk == set(KINDS):
         # self.d[category] must be stored before the rebuild reads it: look for a store to
         # self.d[...] anywhere in the function (ordering is a crash question, not an order one)
